@@ -4,7 +4,7 @@ from vlib import std, lab, common, hbuild, recipes, coq, corr
 
 PID = "C20"
 META = {
-    "text": "Theorems (Properties_C20.v, 28, all closed under the global context), over ALL requests, replies and header values of the model transcribed from Client::maybePurgeOthers / purgeEntriesByHeader / sameUrlHosts (src/clients/Client.cc), purgeEntriesByUrl and processMiss's purgeAllCached (src/client_side_reply.cc), the method attribute table of src/http/RequestMethod.cc (regenerated each run) and Uri::absolute / absolutePath / path / addRelativePath / touch / Encode with their mutable result caches (src/anyp/Uri.cc, PathChars regenerated): (1) first sentence, full strength: after a reply with status < 400 to a method with purgesOthers (shouldInvalidate implies purgesOthers; POST, PUT, DELETE and every unregistered method token have it -- table sweeps) the GET and HEAD keys of the request's effective URI are handed to evictIfFound and no store lookup finds them afterwards, whatever the store held and whatever state the Uri caches were in; an unknown method evicts them even on an error reply; non-purging methods and replies >= 400 evict nothing. (2) second sentence, _partial: a Location / Content-Location value that is an absolute URL whose authority is byte-identical to the request's (sameUrlHosts, a pointer walk over two C strings, is proved equal to authority equality on scheme://authority/path URLs for all schemes, authorities, paths) an absolute-path reference (key = scheme://authority + Encode(reference, PathChars)) or a relative-path reference (key = scheme://authority + Encode(request path up to its last '/' + reference)) is evicted; against an RFC 3986 5.2 resolver written independently in Coq (fragment stripping, remove_dot_segments, case folding, merge) references already in normal form name exactly the URL evicted; headers naming another authority leave every other cached URL in place. (3) the second sentence at full strength is REFUTED (C20_named_url_always_evicted_refuted) with four families of witnesses, each replayed against the running proxy from corpus/C20/known.jsonl: dot segments are not removed; a network-path reference (//host/p) is installed as a path; scheme/host letter case is compared byte-wise; a fragment stays in the key. (A fifth family, relative-path references, was repaired in /repo -- Uri::addRelativePath now calls touch() -- and is proved and regression-tested: corpus/C20/regress.jsonl.) Tie: method table, PathChars, %XX text, case folding regenerated from the code each run; extracted model diffed against the real squid binary (built from the working tree) between a scripted origin and client, and against the real urlIsRelative / Uri::Encode / Uri copy+path()/addRelativePath()+absolute() / sameUrlHosts (text cut from the working tree's Client.cc) in a unit harness.",
+    "text": "Theorems (Properties_C20.v, 29, all closed under the global context), over ALL requests, replies and header values of the model transcribed from Client::maybePurgeOthers / purgeEntriesByHeader / sameUrlHosts (src/clients/Client.cc), purgeEntriesByUrl and processMiss's purgeAllCached (src/client_side_reply.cc), the method attribute table of src/http/RequestMethod.cc (regenerated each run) and Uri::absolute / absolutePath / path / addRelativePath / touch / Encode with their mutable result caches (src/anyp/Uri.cc; PathChars and the set absolutePath() keeps verbatim -- PathChars plus '?' since path_ holds path and query -- regenerated): (1) first sentence, full strength: after a reply with status < 400 to a method with purgesOthers (shouldInvalidate implies purgesOthers; POST, PUT, DELETE and every unregistered method token have it -- table sweeps) the GET and HEAD keys of the request's effective URI are handed to evictIfFound and no store lookup finds them afterwards, whatever the store held and whatever state the Uri caches were in; an unknown method evicts them even on an error reply; non-purging methods and replies >= 400 evict nothing. (2) second sentence, _partial: a Location / Content-Location value that is an absolute URL whose authority is byte-identical to the request's (sameUrlHosts, a pointer walk over two C strings, is proved equal to authority equality on scheme://authority/path URLs for all schemes, authorities, paths) an absolute-path reference (key = scheme://authority + Encode(reference, PathChars)) or a relative-path reference (key = scheme://authority + Encode(request path up to its last '/' + reference)) is evicted; against an RFC 3986 5.2 resolver written independently in Coq (fragment stripping, remove_dot_segments, case folding, merge) references already in normal form name exactly the URL evicted; headers naming another authority leave every other cached URL in place. (3) the second sentence at full strength is REFUTED (C20_named_url_always_evicted_refuted) with four families of witnesses, each replayed against the running proxy from corpus/C20/known.jsonl: dot segments are not removed; a network-path reference (//host/p) is installed as a path; scheme/host letter case is compared byte-wise; a fragment stays in the key. (A fifth family, relative-path references, was repaired in /repo -- Uri::addRelativePath now calls touch() -- and is proved and regression-tested: corpus/C20/regress.jsonl.) Tie: method table, PathChars, %XX text, case folding regenerated from the code each run; extracted model diffed against the real squid binary (built from the working tree) between a scripted origin and client, and against the real urlIsRelative / Uri::Encode / Uri copy+path()/addRelativePath()+absolute() / sameUrlHosts (text cut from the working tree's Client.cc) in a unit harness.",
     "note": "partial: theorems are about the transcribed decision/data-path functions (PurgeModel.v) and a list-of-keys store; that the event-driven proxy calls exactly these functions on every forwarded exchange, that storeKeyPublic is injective on (method,url) (MD5) and that Store::Controller::evictIfFound removes the entry from every store rest on the end-to-end correspondence (memory cache, forward-proxy http requests, no Vary, no store_id helper, no ICAP/peers/HTCP, URLs without query). Known findings C20-dot-segments, C20-network-path-ref, C20-letter-case, C20-fragment. 'Same host' is taken as same authority (host and port), as RFC 9111 4.4 'same origin' and the code do. Trusted: Coq kernel, extraction, gen/gen_purgemethods.cc, gen/gen_purgeuri.cc, vlib/lab.py stubs.",
     "technique": "Coq proof (induction over byte lists for sameUrlHosts / Encode / path merging, case analysis of the purge functions, table sweeps by vm_compute against regenerated tables, vm_compute witnesses for refutations) + end-to-end differential correspondence of the extracted model against the running squid + unit-level correspondence for sameUrlHosts/urlIsRelative/Encode/addRelativePath+absolute + independent oracle (RFC 3986 resolution via urllib, origin arrival counts)",
 }
